@@ -170,7 +170,8 @@ ENV_VALUES = {"unset": None, "empty": "", "plain": "val", "sep": "x/y", "abs": "
 
 def c17_envs(tier):
     envs = []
-    homes = [None, "", "/home/u", "rel/h", "/h$V"] if tier == "quick" else [None, "", "/home/u", "rel/h", "/h$V", "/", "/home/ü"]
+    # (HOME is used verbatim: the root itself, and values ending in separators, are values like any other)
+    homes = [None, "", "/home/u", "rel/h", "/h$V", "/", "/h/"] if tier == "quick" else [None, "", "/home/u", "rel/h", "/h$V", "/", "/home/ü", "/h/", "//", "/h//"]
     vs = list(ENV_VALUES.values())
     for h in homes:
         for v in vs:
